@@ -6,9 +6,9 @@ from __future__ import annotations
 
 import numpy as np
 
-from solvers import COMBOS, Prepared, dense_design, solver_cells
+from solvers import solve_with_batch, COMBOS, Prepared, dense_design, solver_cells
 
-UNITS = ["SolverStruct", "BatchGen"]
+UNITS = ["SolverStruct", "BatchGen", "DesignGen"]
 PROPS = ["props/C06.v"]
 ASSUMPTIONS = ["LAPACK posv: info = 0 -> A x = b (conformance-checked on every call made by this run); backward-error accuracy is a tolerance check (1e-7 relative)"]
 
@@ -70,7 +70,7 @@ def check(ctx):
                         o = P.new(d, f)
                         raised = None
                         try:
-                            o.solve(orders=list(orders), is_compact_fc=False, batch_size=bs)
+                            solve_with_batch(o, P, orders, False, bs)
                         except Exception as e:  # noqa: BLE001
                             raised = e
                         ctx.case({"cell": P.sc["name"], "orders": list(orders), "data": kind, "n_snap": int(d.shape[0]), "batch": bs, "n_coef": int(ncoef)},
@@ -83,7 +83,7 @@ def check(ctx):
                         y = f.reshape(-1)
                         # coefficients back from the returned full force constants (expanded basis is orthonormal)
                         coefs = []
-                        from solvers import expanded_basis
+                        from solvers import solve_with_batch, expanded_basis
                         for m in orders:
                             T = expanded_basis(P.basis[m], m, P.N).reshape(P.nb[m], -1)
                             coefs.append(T @ o.force_constants[m].reshape(-1))
